@@ -80,8 +80,9 @@ package server
 //@   call (*metadataAPI).FetchPartitionMetadata requires !a.config.TLSClientAuthz || ghost.authz[arg2.Stream]["FetchPartitionMetadata"]
 //@   ensures [refused] old(a.config.TLSClientAuthz) && !ghost.authz[old(req.Stream)]["FetchPartitionMetadata"] ==> err != nil
 
-//@ func (*apiServer).Publish serves C15
+//@ func (*apiServer).Publish serves C15, C16
 //@   returns (resp, err)
+//@   call (*apiServer).publish requires [C16:carries-the-publisher's-expected-offset] arg5 != nil && arg5.Offset == req.ExpectedOffset
 //@   assumes a != nil && a.Server != nil && a.config != nil && req != nil
 //@   assumes forall r string, x string :: !ghost.authz[r][x]
 //@   call (*apiServer).resumeStream requires !a.config.TLSClientAuthz || ghost.authz[arg2]["Publish"]
@@ -110,8 +111,9 @@ package server
 //@   ensures [refused] old(a.config.TLSClientAuthz) && !ghost.authz[old(req.Stream)]["FetchCursor"] ==> err != nil
 
 // PublishAsync: every message of the stream is authorised on its own (the grant is reset per iteration).
-//@ func (*publishAsyncSession).publishLoop serves C15
+//@ func (*publishAsyncSession).publishLoop serves C15, C16
 //@   requires p != nil && p.apiServer != nil && p.Server != nil && p.config != nil
+//@   call MarshalPublish requires [C16:carries-the-publisher's-expected-offset] arg0 != nil && arg0.Offset == req.ExpectedOffset
 //@   ghost at loop 1: ghost.authz := reset()
 //@   call (*apiServer).resumeStream requires !p.config.TLSClientAuthz || ghost.authz[arg2]["Publish"]
 //@   call Publish requires !p.config.TLSClientAuthz || ghost.authz[req.Stream]["Publish"]
@@ -159,19 +161,20 @@ package server
 //@ ghost var publishDecoded bool
 //@ ghost var publishMsg *client.Message
 //@ ghost var envelopeOf *client.Message
-//@ func getMessage serves C14
+//@ func getMessage serves C14, C16
 //@   ghost at entry: ghost.publishDecoded := false
 //@   ghost after call UnmarshalPublish: ghost.publishDecoded := ret1 == nil && arrOf(arg0) == arrOf(data) && offOf(arg0) == offOf(data) && len(arg0) == len(data)
 //@   ghost after call UnmarshalPublish: ghost.publishMsg := ret0
 //@   ensures [an-envelope-only-if-it-decodes] (result != nil) == ghost.publishDecoded
 //@   ensures [the-decoded-envelope] result != nil ==> result == ghost.publishMsg
-//@ func natsToProtoMessage serves C04, C17, C14
+//@ func natsToProtoMessage serves C04, C17, C14, C16
 //@   assumes msg != nil
 //@   ensures result != nil && fresh(result)
 //@   ensures [others-untouched] forall x *commitlog.Message :: x != result ==> x.Value == old(x.Value)
 //@   call getMessage requires [the-payload-as-received] arrOf(arg0) == arrOf(msg.Data) && offOf(arg0) == offOf(msg.Data) && len(arg0) == len(msg.Data)
 //@   ghost after call getMessage: ghost.envelopeOf := ret0
 //@   ensures [C14:opaque-payload-stored-verbatim] ghost.envelopeOf == nil ==> arrOf(result.Value) == arrOf(msg.Data) && offOf(result.Value) == offOf(msg.Data) && len(result.Value) == len(msg.Data) && isnil(result.Key) && result.AckInbox == "" && result.CorrelationID == "" && result.AckPolicy == 0
+//@   ensures [C16:expected-offset-taken-from-the-envelope] ghost.envelopeOf != nil ==> result.Offset == ghost.envelopeOf.Offset
 //@   ensures [C14:envelope-stored-as-decoded] ghost.envelopeOf != nil ==> arrOf(result.Value) == arrOf(ghost.envelopeOf.Value) && offOf(result.Value) == offOf(ghost.envelopeOf.Value) && len(result.Value) == len(ghost.envelopeOf.Value) && arrOf(result.Key) == arrOf(ghost.envelopeOf.Key) && len(result.Key) == len(ghost.envelopeOf.Key) && result.AckInbox == ghost.envelopeOf.AckInbox && result.CorrelationID == ghost.envelopeOf.CorrelationId && result.AckPolicy == ghost.envelopeOf.AckPolicy && result.Offset == ghost.envelopeOf.Offset
 
 // storable(m): m passed the gates in front of the log: with an encryption handler its value is a Seal output
